@@ -4,10 +4,15 @@
 (* line, are applied strictly in order, each to what the previous left.    *)
 (*                                                                         *)
 (* Abstract file: [pkg, body] - a package name and the sequence of calls   *)
-(* (atoms) that make up the code.  A change (rule) is                      *)
-(*   [t |-> "ren", from, to, guard, newpkg]   rename every call of `from`  *)
-(*        to `to`; guard: package clause on a context line ("" = none);    *)
-(*        newpkg: '-package guard' / '+package newpkg' ("" = unchanged)    *)
+(* that make up the code; a call is [f, args] with one or two literal      *)
+(* arguments.  A change (rule) is                                          *)
+(*   [t |-> "ren", from, to, guard, newpkg]   '-from(x)' '+to(x)' with an  *)
+(*        expression metavariable x: rename every one-argument call of     *)
+(*        `from`, keeping its argument; guard: package clause on a context *)
+(*        line ("" = none); newpkg: '-package guard' / '+package newpkg'   *)
+(*   [t |-> "split", from, to, ...]   '-from(x, y)' '+pair(to(x), to(y))': *)
+(*        every two-argument call of `from` becomes two one-argument calls *)
+(*        of `to` (code that a later change has to bind site by site)      *)
 (*   [t |-> "fail", from, guard, ...]         matches calls of `from`, but *)
 (*        its replacement cannot be built (the step fails)                 *)
 (*                                                                         *)
@@ -31,16 +36,25 @@ Rules ==
   {[t |-> "ren", from |-> f, to |-> x, guard |-> g, newpkg |-> n] :
       f \in Atoms, x \in Targets, g \in Pkgs \cup {""}, n \in Pkgs \cup {""}}
   \cup {[t |-> "fail", from |-> f, to |-> f, guard |-> g, newpkg |-> ""] : f \in Atoms, g \in Pkgs \cup {""}}
+  \cup {[t |-> "split", from |-> f, to |-> x, guard |-> "", newpkg |-> ""] : f \in Atoms, x \in Targets}
 WellFormedRule(r) == /\ (r.t = "ren" => r.from # r.to)
                      /\ (r.newpkg # "" => (r.guard # "" /\ r.newpkg # r.guard))   \* a rename is written '-package g' '+package n'
-Files == [pkg : Pkgs, body : UNION {[1..n -> Atoms] : n \in 1..MaxLen}]
+Calls == {[f |-> a, args |-> <<v>>] : a \in Atoms, v \in {1, 2}} \cup {[f |-> a, args |-> <<1, 2>>] : a \in Atoms}
+Files == [pkg : Pkgs, body : UNION {[1..n -> Calls] : n \in 1..MaxLen}]
 
 SeqToSet(s) == {s[i] : i \in 1..Len(s)}
 
 \* ---------------------------------------------------------------- one step --
-Matches(file, r) == (r.guard = "" \/ r.guard = file.pkg) /\ r.from \in SeqToSet(file.body)
-Rewrite(file, r) == [pkg |-> IF r.newpkg = "" THEN file.pkg ELSE r.newpkg,
-                     body |-> [i \in 1..Len(file.body) |-> IF file.body[i] = r.from THEN r.to ELSE file.body[i]]]
+Arity(r) == IF r.t = "split" THEN 2 ELSE 1
+Hit(c, r) == c.f = r.from /\ Len(c.args) = Arity(r)
+Matches(file, r) == (r.guard = "" \/ r.guard = file.pkg) /\ \E i \in 1..Len(file.body) : Hit(file.body[i], r)
+RECURSIVE RewriteBody(_, _, _)
+RewriteBody(b, r, i) ==
+  IF i > Len(b) THEN <<>>
+  ELSE (IF ~Hit(b[i], r) THEN <<b[i]>>
+        ELSE IF r.t = "split" THEN <<[f |-> r.to, args |-> <<b[i].args[1]>>], [f |-> r.to, args |-> <<b[i].args[2]>>]>>
+        ELSE <<[f |-> r.to, args |-> b[i].args]>>) \o RewriteBody(b, r, i + 1)
+Rewrite(file, r) == [pkg |-> IF r.newpkg = "" THEN file.pkg ELSE r.newpkg, body |-> RewriteBody(file.body, r, 1)]
 
 \* ---------------------------------------------------------------- P-layer --
 \* one run per change: [ok, file]
